@@ -33,6 +33,11 @@
 //     idle() > size(), size() != <workers>; init_thread not called exactly once per worker with its index
 //     before the worker's first job; number of logged exceptions != number of jobs that threw;
 //   * loop_until_terminate returned while !terminate_ or busy_ != 0;
+//   * a worker picked a job (++busy_) although terminate_ was already set (the real worker checks terminate_ and
+//     picks in ONE critical section, terminate_ is set under the mutex: jobs picked before the flag was set finish,
+//     every job still queued at that moment is dropped — termination never waits for a backlog), or without
+//     holding the mutex; after a loop_until_terminate() call has returned: a job picked, a job body started,
+//     done() changed;
 //   * the run came to rest with a thread blocked in a condition wait whose predicate holds
 //     (lost wake-up / stranded waiter) or blocked on the mutex (deadlock);
 //   * at the normal end: a job ran more than once, done() != finished jobs.
@@ -81,6 +86,10 @@ struct RunState {
     std::map<int, int> init_calls;           // worker index -> number of init_thread calls
     std::map<int, long long> last_done;      // logical thread -> last value of done() it saw
     long long final_done = -1;
+    long long done_seen = 0;                 // value of done_ after its last read-modify-write of the (not abandoned) run
+    long long last_busy = 0;                 // value of busy_ after its last read-modify-write
+    bool lut_returned = false;               // some loop_until_terminate() call has returned
+    long long done_at_lut = -1;              // done_ at that moment
     bool in_dtor = false;
     std::vector<std::string> viols;
     void viol(const std::string& s) { viols.push_back(s); }
@@ -149,7 +158,12 @@ Closure::~Closure() {
 
 static void run_job(JobInst* inst) {
     Sched& S = Sched::get();
+    // an abandoned run (stuck / step limit): in abort mode enabled operations are simply performed, so a worker
+    // with an endless supply of jobs (self-re-enqueueing jobs) would never block; unwind it here
+    if (S.aborting()) throw detsched::Abort();
     if (++inst->runs > 1) rs->viol("job " + std::to_string(inst->id) + " executed " + std::to_string(inst->runs) + " times");
+    if (rs->lut_returned)
+        rs->viol("body of job " + std::to_string(inst->id) + " started after loop_until_terminate had returned (pool not quiescent at return)");
     S.note("job+" + std::to_string(inst->id));
     inst->runner = Sched::self_id();
     rs->cur_run[inst->runner] = inst;
@@ -254,6 +268,8 @@ static void do_call(const Act& a) {
         if (!S.aborting()) {
             if (!rs->pool->terminate_.peek()) rs->viol("loop_until_terminate returned although terminate_ is not set");
             if (rs->pool->busy_.peek() != 0) rs->viol("loop_until_terminate returned with busy=" + std::to_string(rs->pool->busy_.peek()));
+            // from now on the pool is quiescent for good: no job is picked, no body runs, done() is stable
+            if (!rs->lut_returned) { rs->lut_returned = true; rs->done_at_lut = static_cast<long long>(rs->pool->done_.peek()); }
             S.note("ret(u)");
         }
         break;
@@ -382,6 +398,25 @@ static std::string execute(const RunParams& p, bool tail_zero, std::vector<std::
             // the worker's bookkeeping for the job it ran last
             auto it = rs->cur_run.find(tid);
             if (it != rs->cur_run.end()) it->second->counted = true;
+            rs->done_seen = val;
+            if (rs->lut_returned)
+                rs->viol("done() changed to " + std::to_string(val) + " after loop_until_terminate had returned with done()=" +
+                         std::to_string(rs->done_at_lut));
+        }
+        if (op == Op::Rmw && obj == &rs->pool->busy_) {
+            if (val > rs->last_busy) {
+                // ++busy_: the worker picks a job.  The real worker does this in the critical section in which it
+                // has read terminate_ == false, and terminate_ is only set under the mutex: once terminate() /
+                // ~ThreadPool has set the flag no further job is picked (jobs picked before finish, queued ones are dropped)
+                if (rs->pool->terminate_.peek())
+                    rs->viol("worker thread " + std::to_string(tid) + " picked a job (++busy_) although terminate_ was already set: " +
+                             "termination waits for queued jobs, not only for the running ones");
+                if (rs->pool->mutex_.st_.owner != tid)
+                    rs->viol("worker thread " + std::to_string(tid) + " picked a job (++busy_) without holding the pool mutex");
+                if (rs->lut_returned)
+                    rs->viol("worker thread " + std::to_string(tid) + " picked a job after loop_until_terminate had returned");
+            }
+            rs->last_busy = val;
         }
         if (op == Op::NotifyOne && obj == &rs->pool->cv_jobs_) {
             auto it = rs->cur_enq.find(tid);
@@ -406,7 +441,8 @@ static std::string execute(const RunParams& p, bool tail_zero, std::vector<std::
     }
     // summary (all logical threads are gone now)
     long long done = state.final_done;
-    if (state.constructed && !state.destroyed) done = static_cast<long long>(state.pool->done_.peek());
+    // an abandoned run: what the threads do while they are unwound (abort mode) does not count
+    if (state.constructed && !state.destroyed) done = state.done_seen;
     if (e == detsched::End::Done)
         for (JobInst* j : state.pushed)
             if (j->destroyed != 1) { state.viol("closure of job " + std::to_string(j->id) + " destroyed " + std::to_string(j->destroyed) + " times by the end"); break; }
